@@ -434,6 +434,11 @@ def run(ctx):
     from .c07 import rule_element_ops
     rule_element_ops(ctx, idx, rid="R08.10")
 
+    # ------------------------------------------------------------------ R08.11 (= R13.7)
+    # content is encoded for the document encoding; which <meta> decides it must not depend on handlers or on valueless metas
+    from .c13 import rule_meta_charset
+    rule_meta_charset(ctx, mir, rid="R08.11")
+
     ctx.not_decided += ["differences between lol-html's tokenizer and other HTML parsers beyond C03", "decoding of the output under another encoding than the document's (cross-encoding confusion)"]
     return ("Writer/reader agreement decided as language inclusions between the serialiser's reject/escape sets (read from the expanded source) and the "
             "tokenizer automaton extracted from the same tree: exhaustive over all 256 bytes for names, values and body text, and a DFA inclusion "
